@@ -53,6 +53,10 @@ type VMCase struct {
 	Seed     [2]uint64 `json:"seed"`
 	Mode     int       `json:"mode,omitempty"`
 	DefSides string    `json:"def_sides,omitempty"` // Config.DefaultDiceSideExpr ("" = 100)
+	// optional earlier evaluation on the same VM under another default number of faces
+	// (a host changes DefaultDiceSideExpr per game system; the new setting must take effect)
+	WarmSides string `json:"warm_sides,omitempty"`
+	Warm      string `json:"warm,omitempty"`
 	Items    []Item    `json:"items"`
 }
 
@@ -468,6 +472,11 @@ func checkVM(c VMCase, s *rt.Section) (*rt.Failure, vmInfo) {
 	info := vmInfo{}
 	src, spans := printCase(&c)
 	vm := newVM(&c)
+	if c.Warm != "" {
+		vm.Config.DefaultDiceSideExpr = c.WarmSides
+		guarded(func() { _ = vm.Run(c.Warm) })
+		vm.Config.DefaultDiceSideExpr = c.DefSides
+	}
 	var err error
 	sig, obs := guarded(func() { err = vm.Run(src) })
 	if sig != "" {
@@ -852,6 +861,10 @@ func drawVMCase(t *rapid.T, s *rt.Section) VMCase {
 	c := VMCase{Seed: [2]uint64{rapid.Uint64().Draw(t, "seed0"), rapid.Uint64().Draw(t, "seed1")}}
 	c.Mode = drawMode(t)
 	c.DefSides = rapid.SampledFrom([]string{"", "", "6", "20"}).Draw(t, "defSides")
+	if rapid.IntRange(0, 2).Draw(t, "withWarm") == 0 {
+		c.WarmSides = rapid.SampledFrom([]string{"", "4", "6", "8", "20", "100", "3"}).Draw(t, "warmSides")
+		c.Warm = rapid.SampledFrom([]string{"d", "2d", "3d + 1", "d优势", "2dk1"}).Draw(t, "warm")
+	}
 	g := &vgen{t: t, s: s, maxMode: c.Mode == 1}
 	n := rapid.IntRange(1, 4).Draw(t, "items")
 	hasTerm := false
